@@ -226,16 +226,37 @@ class ImplPool:
             self.pool = ctx.Pool(NPROC, initializer=_worker_init, initargs=(self.engine_mod,))
 
     def run(self, prop, cases):
-        self._ensure()
+        """Ordered results.  A worker that dies (segfault, os._exit, killed) would make Pool.imap wait
+        for ever: every result is awaited with a timeout; on expiry the case is recorded as an error,
+        the pool is rebuilt and the run continues with the next case (at most MAX_TIMEOUTS times)."""
         out = []
         timeouts = 0
-        it = self.pool.imap(_worker_run, [(prop, c) for c in cases], chunksize=4)
-        for o in it:
-            out.append(o)
-            if isinstance(o, dict) and str(o.get("_harness_error", "")).startswith("timeout"):
-                timeouts += 1
-                if timeouts >= MAX_TIMEOUTS:
+        start = 0
+        while start < len(cases) and timeouts < MAX_TIMEOUTS:
+            self._ensure()
+            it = self.pool.imap(_worker_run, [(prop, c) for c in cases[start:]], chunksize=1)
+            lost = False
+            while len(out) < len(cases):
+                try:
+                    o = it.next(timeout=CASE_TIMEOUT * 3 + 30)
+                except StopIteration:
                     break
+                except mp.TimeoutError:
+                    out.append({"_harness_error": "timeout: no answer from the worker process (died or hung)"})
+                    timeouts += 1
+                    lost = True
+                    break
+                out.append(o)
+                if isinstance(o, dict) and str(o.get("_harness_error", "")).startswith("timeout"):
+                    timeouts += 1
+                    if timeouts >= MAX_TIMEOUTS:
+                        lost = True
+                        break
+            if lost:
+                self.close()
+            start = len(out)
+            if not lost:
+                break
         if len(out) < len(cases):
             self.close()
             out += [{"_not_run": True} for _ in range(len(cases) - len(out))]
